@@ -181,6 +181,24 @@ template <class V> static std::string rt_dense(const std::vector<V> &d, int n, i
         if ((int)a != n || (int)b != m || !bits_eq_range(v, d, (size_t)q.first * m, (size_t)(q.second - q.first) * m)) FAIL((q.first == 0 && q.second == n) ? "roundtrip.bin_dense.full_read" : "rowrange.bin_dense", "rows [" << q.first << "," << q.second << ") of " << n << "x" << m << " differ");
     }
     { size_t a = 0, b = 0; std::vector<V> v; amgcl::io::read_dense(P("g"), a, b, v); if (!bits_eq(v, d)) FAIL("roundtrip.bin_dense.full_read", "default range read differs"); }
+    // the same ranges read into ONE output vector that is reused from call to call (and starts out holding junk): what the vector
+    // held before is not an input -- after every call it is exactly the requested slice, the empty slice included
+    {
+        std::vector<V> vr((size_t)n * m + 3, V(7));
+        for (auto q : rg) {
+            size_t a = 0, b = 0;
+            amgcl::io::read_dense(P("g"), a, b, vr, q.first, q.second);
+            if ((int)a != n || (int)b != m || !bits_eq_range(vr, d, (size_t)q.first * m, (size_t)(q.second - q.first) * m))
+                FAIL("rowrange.bin_dense.reused_output", "rows [" << q.first << "," << q.second << ") of " << n << "x" << m << " read into a reused vector: " << vr.size() << " values returned, expected " << (size_t)(q.second - q.first) * m << " (or they differ from the slice)");
+        }
+        std::vector<V> vm((size_t)n * m + 3, V(7));
+        for (auto q : rg) {
+            amgcl::io::mm_reader r(P());
+            size_t rows, cols; std::tie(rows, cols) = r(vm, q.first, q.second);
+            if ((int)rows != q.second - q.first || (int)cols != m || !bits_eq_range(vm, d, (size_t)q.first * m, (size_t)(q.second - q.first) * m))
+                FAIL("rowrange.mm_dense.reused_output", "rows [" << q.first << "," << q.second << ") of " << n << "x" << m << " read into a reused vector differ from the slice");
+        }
+    }
     return "";
 }
 
